@@ -10,9 +10,11 @@ those whose DECLARED type is Optional, and build — from one "full" instance wi
 instances with every subset of these paths set to `None` (x which list elements a variable index / loop
 variable stands for x all booleans True / False).
 
-Also here: `Method`, the stub of an implementation-specific method inside an instance mapping (ignores its
-arguments, returns a fixed value of the declared return type), so that invariants with method calls can be
-evaluated at all.
+Also here: `Method`, the stub of an implementation-specific method inside an instance mapping (returns a fixed
+value of the declared return type), so that invariants with method calls can be evaluated at all.  The stub
+behaves like a method that USES its arguments as declared: a wrong number of arguments, a `None` for a
+parameter that is not Optional or a primitive of the wrong kind is a `TypeError` (the inferrer has to refuse
+such calls: former finding C07-F3).
 """
 from __future__ import annotations
 
@@ -31,13 +33,21 @@ Path = Tuple[Step, ...]
 class Method(_View):
     """Stub of a method in an instance mapping; `_View` subclass so that `Env.convert` hands it out unchanged."""
 
-    __slots__ = ("_ret",)
+    __slots__ = ("_ret", "_params")
 
-    def __init__(self, ret: Any, env: Any) -> None:
+    def __init__(self, ret: Any, env: Any, params: Optional[Sequence[Any]] = None) -> None:
         _View.__init__(self, None, env)
         object.__setattr__(self, "_ret", ret)
+        #: declared types of the arguments (`M.Arg.type`), None = unknown (replayed witnesses): nothing is checked
+        object.__setattr__(self, "_params", None if params is None else list(params))
 
     def __call__(self, *args: Any) -> Any:
+        if self._params is not None:
+            if len(args) != len(self._params):
+                raise TypeError(f"method() takes {len(self._params)} positional arguments but {len(args)} were given")
+            for k, (a, t) in enumerate(zip(args, self._params)):
+                if not _usable_as(a, t):
+                    raise TypeError(f"argument of method: argument {k} is {type(a).__name__}, declared {M.render_type(t)}")
         return self._env.convert(self._ret)
 
     def __getattr__(self, name: str) -> Any:
@@ -51,6 +61,24 @@ class Method(_View):
 
     def __repr__(self) -> str:
         return f"Method(-> {self._ret!r})"
+
+
+_PY_KINDS = {"int": (int,), "float": (float, int), "str": (str,), "bool": (bool,), "bytes": (bytes, bytearray)}
+
+
+def _usable_as(value: Any, t: Any) -> bool:
+    """Would a method that uses `value` as a `t` get along?  (None-ness and the kind of a primitive; the rest passes.)"""
+    if isinstance(t, M.OptionalOf):
+        return value is None or _usable_as(value, t.item)
+    if value is None:
+        return False
+    if isinstance(t, M.Prim):
+        if t.name == "int" and isinstance(value, bool):
+            return False
+        return isinstance(value, _PY_KINDS.get(t.name, (object,)))
+    if isinstance(t, M.ListOf):
+        return isinstance(value, (list, tuple)) or type(value).__name__ == "_ListView" or hasattr(value, "__iter__") and not isinstance(value, (str, bytes))
+    return True
 
 
 def all_methods(model: M.MM, cls: str) -> List[M.Method]:
@@ -190,7 +218,7 @@ class Full:
             out[p.name] = self.value(p.type, depth)
         for m_ in all_methods(self.m, name):
             if m_.name not in out:
-                out[m_.name] = Method(None if m_.returns is None else self.value(m_.returns, depth), self.env)
+                out[m_.name] = Method(None if m_.returns is None else self.value(m_.returns, depth), self.env, [a.type for a in m_.args])
         return out
 
 
@@ -204,7 +232,7 @@ def set_none(obj: Any, path: Path, choice: Any, env: Any) -> Any:
             return obj
         cur = obj[arg]
         if isinstance(cur, Method):
-            new: Any = Method(set_none(cur._ret, rest, choice, env) if cur._ret is not None else None, env)
+            new: Any = Method(set_none(cur._ret, rest, choice, env) if cur._ret is not None else None, env, cur._params)
         elif cur is None:
             return obj
         else:
